@@ -297,6 +297,17 @@ def eval_build_options(fn, specs, overrides):
         raise Inconclusive("main does not construct BuildOptions")
     env = default_env(specs)
     env.update({f"{ARGS}.{k}": v for k, v in overrides.items()})
+    # module-level constants of main's module (a dispatch table `_DICT_STRATEGIES = {...}`), as far as they are literals
+    mod = fn
+    while getattr(mod, "_parent", None) is not None:
+        mod = mod._parent
+    for s_ in getattr(mod, "body", []):
+        tg_ = s_.targets[0] if isinstance(s_, ast.Assign) and len(s_.targets) == 1 else (s_.target if isinstance(s_, ast.AnnAssign) and s_.value is not None else None)
+        if isinstance(tg_, ast.Name) and tg_.id not in env:
+            try:
+                env[tg_.id] = ev(s_.value, env)
+            except Exception:     # noqa - not a literal: stays unknown
+                pass
     kws = {k.arg: k.value for k in call.keywords if k.arg}
     stmts = slice_for(fn, list(kws.values()))
     try:
